@@ -19,7 +19,7 @@ PortableTable(t) == t.k \in {"table", "alias"} \/ (t.k = "subq" /\ Portable(t.q)
 Portable(s) ==
   /\ \A B \in {"mysql", "pg", "sqlite"} : ~Unsupported(B, s)
   /\ CASE s.kind = "select" ->
-            /\ IsNone(s.lock) /\ Len(s.hints) = 0 /\ IsNone(s.window)
+            /\ IsNone(s.lock) /\ Len(s.hints) = 0 /\ IsNone(s.window) /\ IsNone(s.sample)
             /\ (IsNone(s.distinct) \/ s.distinct.k = "distinct")
             /\ \A i \in DOMAIN s.from : PortableTable(s.from[i])
             /\ \A i \in DOMAIN s.joins : PortableTable(s.joins[i].t) /\ ~s.joins[i].lateral
